@@ -4,6 +4,8 @@ CONSTANTS NC = 2
   MaxPS = 1
   NoiseKinds <- MCNoiseAll
   ErrKinds <- MCErrAll
+  Segs <- MCSegOwn
+  MaxAcc = 3
   D = 1
 INIT Init
 NEXT Next
